@@ -129,7 +129,7 @@ def canon_atom(t):
                 op, neg = '<', not neg
             elif op == '<=':
                 op, a, b, neg = '<', b, a, not neg
-            if op in ('is', '==') and a[0] == 'const' and b[0] != 'const':
+            if op in ('is', '==') and T.sym_key(a) > T.sym_key(b):
                 a, b = b, a
             if a[0] == 'const' and b[0] == 'const':
                 try:
@@ -860,7 +860,7 @@ class Evaluator(object):
         for ts, s in self.ev_seq([node.left] + list(node.comparators), st):
             parts = []
             for i, op in enumerate(node.ops):
-                parts.append(('cmp', _CMP[type(op)], ts[i], ts[i + 1]))
+                parts.append(T.mkcmp(_CMP[type(op)], ts[i], ts[i + 1]))
             t = parts[0] if len(parts) == 1 else ('boolop', 'and', tuple(parts))
             if len(parts) == 1:
                 atom, neg = canon_atom(t)
